@@ -45,7 +45,20 @@ namespace pika {
 
         while (owner_id_ != threads::detail::invalid_thread_id)
         {
-            cond_.wait(l, ec);
+            try
+            {
+                cond_.wait(l, ec);
+            }
+            catch (...)
+            {
+                // The wait was left by an exception (interruption). unlock() may already have
+                // handed the mutex to this waiter: pass the hand-off on to the next one.
+                if (owner_id_ == threads::detail::invalid_thread_id)
+                {
+                    cond_.notify_one(std::move(l), execution::thread_priority::boost);
+                }
+                throw;
+            }
             if (ec) { return; }
         }
 
@@ -111,8 +124,21 @@ namespace pika {
         threads::detail::thread_id_type self_id = pika::threads::detail::get_self_id();
         if (owner_id_ != threads::detail::invalid_thread_id)
         {
-            pika::threads::detail::thread_restart_state const reason =
-                cond_.wait_until(l, abs_time, ec);
+            pika::threads::detail::thread_restart_state reason =
+                pika::threads::detail::thread_restart_state::unknown;
+            try
+            {
+                reason = cond_.wait_until(l, abs_time, ec);
+            }
+            catch (...)
+            {
+                // see mutex::lock
+                if (owner_id_ == threads::detail::invalid_thread_id)
+                {
+                    cond_.notify_one(std::move(l), execution::thread_priority::boost);
+                }
+                throw;
+            }
             if (ec) { return false; }
 
             if (reason == pika::threads::detail::thread_restart_state::timeout)    //-V110
